@@ -14,13 +14,20 @@ PATH = os.path.join(core.VERIF, 'known_findings.json')
 
 
 def load(prop):
-    if not os.path.exists(PATH):
-        return []
-    doc = json.load(open(PATH))
-    return [e for e in doc.get('findings', []) if e['property'] == prop]
+    out = []
+    paths = [PATH, os.path.join(core.VERIF, 'known_findings.d',
+                                prop + '.json')]
+    for p in paths:
+        if os.path.exists(p):
+            doc = json.load(open(p))
+            out += [e for e in doc.get('findings', [])
+                    if e['property'] == prop]
+    return out
 
 
-def match(v, entries):
+def match(v, entries, module=None):
+    preds = dict(PREDICATES)
+    preds.update(getattr(module, 'PREDICATES', {}))
     for e in entries:
         if e.get('status') != 'open':
             continue
@@ -30,7 +37,7 @@ def match(v, entries):
         if 'kind_re' in m and not re.fullmatch(m['kind_re'], v['kind']):
             continue
         pred = m.get('pred')
-        if pred and not PREDICATES[pred](v, **m.get('params', {})):
+        if pred and not preds[pred](v, **m.get('params', {})):
             continue
         return e
     return None
